@@ -129,6 +129,11 @@ class SimFile:
         if self.fault.get("kind") == "eio_close" and not self.fault.get("fired"):
             self.fault["fired"] = True
             self.disk.fired["eio_close"] = self.disk.fired.get("eio_close", 0) + 1
+            lose = self.fault.get("lose")
+            if lose:
+                # buffered data that the failing flush never wrote
+                cur = self.disk.files.get(self.path, b"")
+                self.disk.files[self.path] = cur[:max(0, len(cur) - int(lose))]
             raise OSError(errno.EIO, "Input/output error on close (simulated)")
 
     # -- reading
